@@ -23,6 +23,12 @@ func VerifyInclusion(iproof [][sha256.Size]byte, i, j uint64, iLeaf, jRoot [sha2
 		return false
 	}
 
+	// the number of proof terms must bring the claimed position onto the right-most
+	// path of the tree of size j, otherwise the proof is for a different position
+	if (i-1)>>uint(len(iproof)) != (j-1)>>uint(len(iproof)) {
+		return false
+	}
+
 	ciRoot := EvalInclusion(iproof, i, j, iLeaf)
 
 	return jRoot == ciRoot
